@@ -464,7 +464,7 @@ def const_text(t, v):
     if t == BOOL:
         return "True" if v else "False"
     if t == INT:
-        return f"Integer({v})"
+        return "I_m%d" % -v if v < 0 else "I_%d" % v  # module-level Integer constants of HEADER
     if t[0] == "bv":
         return f'BitVector[{t[1]}]("{v:0{t[1]}b}")'
     if t[0] == "u":
@@ -575,6 +575,9 @@ class En3(enum.Enum):
     eb = enum.auto()
     ec = enum.auto()
 
+
+for _k in range(-9, 10):
+    globals()["I_m%d" % -_k if _k < 0 else "I_%d" % _k] = Integer(_k)
 
 _TY = {}
 
